@@ -476,12 +476,20 @@ func c15r5field(c *RC, openFn *Func, openCall *ast.CallExpr, offSel *ast.Selecto
 				// success guard: on every path to the advance, facts say err==nil or err==io.EOF
 				guard := true
 				var trail []string
+				// the error variable assigned together with the count
+				errKeyName := ""
+				ast.Inspect(fn.Body, func(m ast.Node) bool {
+					if as, ok := m.(*ast.AssignStmt); ok && len(as.Lhs) == 2 && expr(as.Lhs[0]) == cntName {
+						errKeyName = fl.Key(as.Lhs[1])
+					}
+					return true
+				})
 				fl.Walk(fl.Entry(), "", nil, Visitor{
 					Node: func(n ast.Node, x string, s *Step) (string, bool) {
 						if s.Block == b && s.Idx == i {
 							okf := false
 							for _, f := range s.Facts {
-								if strings.HasPrefix(f.key, "err@") && f.eq && (f.val == "nil" || f.val == "io.EOF") {
+								if f.key == errKeyName && errKeyName != "" && f.eq && (f.val == "nil" || f.val == "io.EOF") {
 									okf = true
 								}
 							}
@@ -690,8 +698,15 @@ func c15r6(c *RC) {
 	}
 	// Open: p[offset:] behind `int64(len(p)) < offset` => error
 	var slice *ast.SliceExpr
+	offP := "offset"
+	if open.Type.Params != nil {
+		last := open.Type.Params.List[len(open.Type.Params.List)-1]
+		if len(last.Names) > 0 {
+			offP = last.Names[len(last.Names)-1].Name
+		}
+	}
 	inspectNoLit(open.Body, func(n ast.Node) bool {
-		if s, ok := n.(*ast.SliceExpr); ok && s.Low != nil && expr(s.Low) == "offset" {
+		if s, ok := n.(*ast.SliceExpr); ok && s.Low != nil && expr(s.Low) == offP {
 			slice = s
 		}
 		return true
@@ -708,8 +723,8 @@ func c15r6(c *RC) {
 				cond := flo.edgeCond(from)
 				if be, ok := ast.Unparen(cond2(cond)).(*ast.BinaryExpr); ok {
 					l, r := expr(be.X), expr(be.Y)
-					lenFirst := strings.Contains(l, "len("+expr(slice.X)+")") && r == "offset"
-					offFirst := strings.Contains(r, "len("+expr(slice.X)+")") && l == "offset"
+					lenFirst := strings.Contains(l, "len("+expr(slice.X)+")") && r == offP
+					offFirst := strings.Contains(r, "len("+expr(slice.X)+")") && l == offP
 					tooBig := lenFirst && be.Op == token.LSS || offFirst && be.Op == token.GTR
 					fits := lenFirst && be.Op == token.GEQ || offFirst && be.Op == token.LEQ
 					if tooBig && from.Succs[1] == to || fits && from.Succs[0] == to {
